@@ -75,9 +75,13 @@ def worker(ns, items, res, opts):
                 # sorting MosFile objects orders them numerically too
                 docs = [ro_text] + msgs
                 for perm in itertools.permutations(range(len(docs))):
-                    objs = [ns.mt.MosFile.from_string(docs[i]) for i in perm]
+                    try:
+                        objs = [ns.mt.MosFile.from_string(docs[i]) for i in perm]
+                        s = [o.message_id for o in sorted(objs)]
+                    except Exception as e:  # noqa
+                        explore.add_simple_finding(res, prop, f'sorted-mosfiles:raised:{type(e).__name__}', f'sorting MosFile objects for ids {ids} raised {type(e).__name__}: {e}', ids=list(ids))
+                        break
                     res.transitions += 1
-                    s = [o.message_id for o in sorted(objs)]
                     if s != sorted(ids):
                         explore.add_simple_finding(res, prop, 'sorted-mosfiles', f'sorted(MosFile objects) gives {s} for ids {ids}', ids=list(ids))
                         break
